@@ -40,6 +40,8 @@ func main() {
 	verif := verifDir()
 	if *evDir == "" {
 		*evDir = filepath.Join(verif, "evidence")
+	} else if *evDir == "none" {
+		*evDir = ""
 	}
 	if *knownF == "" {
 		*knownF = filepath.Join(verif, "known_findings.json")
